@@ -1,5 +1,10 @@
 import ScryerModel.Model.ArithInt
-/-! Helper lemmas for the integer arithmetic model (C01, C05). -/
+/-! Helper lemmas for the integer arithmetic model (C01, C05).
+
+Everything here is over Lean core only (no Mathlib). Layout: representation lemmas, `+ - * abs`,
+division family, binary GCD (invariant + fuel sufficiency), shifts (clamps, sign fill, the
+"fits in memory" side condition), bitwise, min/max/sign, power, and finally whole expressions
+(`eval_wf`, `eval_exact`). The bit-level reading of `land/lor/lxor` is in `Proofs/ArithIntBits`. -/
 namespace Scryer.Arith
 
 @[simp] theorem val_fix (v : Int) : (Num.fix v).val = v := rfl
@@ -83,5 +88,844 @@ theorem abs_wf (a : Num) : (abs a).wf := by
     · simpa [Num.wf]
     · exact ofBig_wf _
   · exact ofBig_wf _
+
+/-! ### `//`, `rem`, `mod`, `div` -/
+
+theorem ibigRemFloor_eq (n1 n2 : Int) : ibigRemFloor n1 n2 = Int.fmod n1 n2 := by
+  unfold ibigRemFloor
+  rw [Int.fmod_eq_emod]
+  have e : n1.emod (n2.natAbs : Int) = n1 % n2 := by
+    show n1 % (n2.natAbs : Int) = n1 % n2
+    rcases Int.natAbs_eq n2 with h | h
+    · rw [← h]
+    · conv => rhs; rw [h]
+      rw [Int.emod_neg]
+  simp only [e]
+  by_cases hn : n2 < 0
+  · simp only [hn, if_true]
+    by_cases hr : n1 % n2 = 0
+    · have : n2 ∣ n1 := Int.dvd_of_emod_eq_zero hr
+      simp [hr, this]
+    · have : ¬ n2 ∣ n1 := fun hd => hr (Int.emod_eq_zero_of_dvd hd)
+      have h0 : ¬ (0 ≤ n2) := by omega
+      simp [hr, this, h0]
+  · have h0 : 0 ≤ n2 := by omega
+    simp [hn, h0]
+
+theorem tdiv_sub_fmod (a b : Int) (h : b ≠ 0) : Int.tdiv (a - Int.fmod a b) b = Int.fdiv a b := by
+  have := Int.mul_fdiv_add_fmod a b
+  have e : a - Int.fmod a b = b * Int.fdiv a b := by omega
+  rw [e, Int.mul_tdiv_cancel_left _ h]
+
+@[simp] theorem map_ok (f : Num → Int) (x : Num) : Except.map f (Except.ok x : R) = .ok (f x) := rfl
+@[simp] theorem map_error (f : Num → Int) (e : Err) : Except.map f (Except.error e : R) = .error e := rfl
+
+theorem idiv_spec (a b : Num) : (idiv a b).map Num.val = specBin .idiv a.val b.val := by
+  cases a <;> cases b <;> simp only [idiv, specBin, val_fix, val_big] <;> rename_i x y <;>
+    by_cases hb : y = 0 <;> simp only [hb, if_true, if_false, map_ok, map_error, ofBig_val]
+  split <;> simp
+
+theorem idiv_wf (a b n : Num) (h : idiv a b = .ok n) : n.wf := by
+  cases a <;> cases b <;> simp only [idiv] at h <;> split at h <;> try cases h
+  · split at h <;> cases h
+    · exact ofI64_wf _
+    · exact ofBig_wf _
+  all_goals exact ofBig_wf _
+
+theorem modulus_spec (a b : Num) : (modulus a b).map Num.val = specBin .mod a.val b.val := by
+  cases a <;> cases b <;> simp only [modulus, specBin, val_fix, val_big] <;> rename_i x y <;>
+    by_cases hb : y = 0 <;>
+    simp only [hb, if_true, if_false, map_ok, map_error, ofBig_val, ofI64_val, ibigRemFloor_eq]
+
+theorem modulus_wf (a b n : Num) (h : modulus a b = .ok n) : n.wf := by
+  cases a <;> cases b <;> simp only [modulus] at h <;> split at h <;> cases h
+  · exact ofI64_wf _
+  all_goals exact ofBig_wf _
+
+theorem remainder_spec (a b : Num) : (remainder a b).map Num.val = specBin .rem a.val b.val := by
+  cases a <;> cases b <;> simp only [remainder, specBin, val_fix, val_big] <;> rename_i x y <;>
+    by_cases hb : y = 0 <;>
+    simp only [hb, if_true, if_false, map_ok, map_error, ofBig_val, ofI64_val]
+
+theorem remainder_wf (a b n : Num) (h : remainder a b = .ok n) : n.wf := by
+  cases a <;> cases b <;> simp only [remainder] at h <;> split at h <;> cases h
+  · exact ofI64_wf _
+  all_goals exact ofBig_wf _
+
+theorem intFloorDiv_spec (a b : Num) : (intFloorDiv a b).map Num.val = specBin .div a.val b.val := by
+  unfold intFloorDiv
+  have hm := modulus_spec a b
+  cases hmod : modulus a b with
+  | error e =>
+    rw [hmod] at hm
+    simp only [specBin] at hm ⊢
+    split at hm
+    · rename_i hb; rw [if_pos hb]; exact hm
+    · cases hm
+  | ok m =>
+    rw [hmod] at hm
+    simp only [specBin] at hm ⊢
+    split at hm
+    · cases hm
+    · rename_i hb
+      simp only [map_ok, Except.ok.injEq] at hm
+      rw [idiv_spec, sub_val, hm]
+      simp only [specBin, hb, if_false, tdiv_sub_fmod _ _ hb]
+
+theorem intFloorDiv_wf (a b n : Num) (h : intFloorDiv a b = .ok n) : n.wf := by
+  unfold intFloorDiv at h
+  split at h
+  · cases h
+  · exact idiv_wf _ _ _ h
+
+/-! ### gcd -/
+
+theorem gcd_odd_two_mul (m k : Nat) (hm : m % 2 = 1) : Nat.gcd m (2 * k) = Nat.gcd m k :=
+  Nat.Coprime.gcd_mul_left_cancel_right k
+    (by unfold Nat.Coprime; rw [Nat.gcd_rec, hm]; exact Nat.gcd_one_left _)
+
+theorem stripTwos_gcd (m : Nat) (hm : m % 2 = 1) (fuel n : Nat) :
+    Nat.gcd m (stripTwos fuel n) = Nat.gcd m n := by
+  induction fuel generalizing n with
+  | zero => rfl
+  | succ f ih =>
+    unfold stripTwos
+    split
+    · rename_i h
+      rw [ih, ← gcd_odd_two_mul m (n / 2) hm]
+      congr 1; omega
+    · rfl
+
+theorem stripTwos_le (fuel n : Nat) : stripTwos fuel n ≤ n := by
+  induction fuel generalizing n with
+  | zero => exact Nat.le_refl _
+  | succ f ih =>
+    unfold stripTwos
+    split
+    · exact Nat.le_trans (ih _) (Nat.div_le_self _ _)
+    · exact Nat.le_refl _
+
+theorem stripTwos_ne_zero (fuel n : Nat) (hn : n ≠ 0) : stripTwos fuel n ≠ 0 := by
+  induction fuel generalizing n with
+  | zero => exact hn
+  | succ f ih =>
+    unfold stripTwos
+    split
+    · exact ih _ (by omega)
+    · exact hn
+
+/-- fuel sufficiency: `fuel` halvings strip every trailing zero bit of a non-zero `n < 2^fuel`. -/
+theorem stripTwos_odd (fuel n : Nat) (hn : n ≠ 0) (hlt : n < 2 ^ fuel) :
+    stripTwos fuel n % 2 = 1 := by
+  induction fuel generalizing n with
+  | zero => simp at hlt; omega
+  | succ f ih =>
+    unfold stripTwos
+    split
+    · exact ih _ (by omega) (by rw [Nat.pow_succ] at hlt; omega)
+    · omega
+
+theorem stripTwos_of_odd (fuel n : Nat) (h : n % 2 = 1) : stripTwos fuel n = n := by
+  cases fuel with
+  | zero => rfl
+  | succ f => unfold stripTwos; rw [if_neg (by omega)]
+
+/-- the common-factor loop divides both arguments by the same `2^k`, counts `k`, and (fuel
+sufficiency) stops with one of them odd. -/
+theorem commonTwos_spec (fuel a b s : Nat) :
+    ∃ k, (commonTwos fuel a b s).2.2 = s + k ∧ a = (commonTwos fuel a b s).1 * 2 ^ k ∧
+      b = (commonTwos fuel a b s).2.1 * 2 ^ k ∧
+      (a ≠ 0 → a < 2 ^ fuel →
+        ((commonTwos fuel a b s).1 % 2 = 1 ∨ (commonTwos fuel a b s).2.1 % 2 = 1)) := by
+  induction fuel generalizing a b s with
+  | zero =>
+    refine ⟨0, rfl, by simp [commonTwos], by simp [commonTwos], ?_⟩
+    intro h0 h1; simp at h1; omega
+  | succ f ih =>
+    unfold commonTwos
+    split
+    · rename_i h
+      obtain ⟨k, hs, ha, hb, hodd⟩ := ih (a / 2) (b / 2) (s + 1)
+      refine ⟨k + 1, by omega, ?_, ?_, ?_⟩
+      · rw [Nat.pow_succ, ← Nat.mul_assoc, ← ha]; omega
+      · rw [Nat.pow_succ, ← Nat.mul_assoc, ← hb]; omega
+      · intro h0 h1
+        exact hodd (by omega) (by rw [Nat.pow_succ] at h1; omega)
+    · rename_i h
+      refine ⟨0, rfl, by simp, by simp, ?_⟩
+      intro _ _; show a % 2 = 1 ∨ b % 2 = 1; omega
+
+/-- the subtraction loop: invariant `gcd`, termination because `n1 + n2` strictly decreases. -/
+theorem gcdLoop_spec (fuel n1 n2 : Nat) (h1 : n1 % 2 = 1) (h2 : n2 ≠ 0)
+    (hb1 : n1 < 2 ^ 64) (hb2 : n2 < 2 ^ 64) (hf : n1 + n2 < fuel) :
+    gcdLoop fuel n1 n2 = Nat.gcd n1 n2 := by
+  induction fuel generalizing n1 n2 with
+  | zero => omega
+  | succ f ih =>
+    unfold gcdLoop
+    have hmo := stripTwos_odd 64 n2 h2 hb2
+    have hmle := stripTwos_le 64 n2
+    have hmg := stripTwos_gcd n1 h1 64 n2
+    generalize stripTwos 64 n2 = m at *
+    by_cases hgt : n1 > m
+    · simp only [hgt, if_true]
+      rw [if_neg (by omega), ih m (n1 - m) hmo (by omega) (by omega) (by omega) (by omega),
+        Nat.gcd_sub_self_right (by omega), Nat.gcd_comm, hmg]
+    · simp only [hgt, if_false]
+      split
+      · have : m = n1 := by omega
+        rw [← hmg, this, Nat.gcd_self]
+      · rw [ih n1 (m - n1) h1 (by omega) hb1 (by omega) (by omega),
+          Nat.gcd_sub_self_right (by omega), hmg]
+
+theorem isizeGcd_spec (n1 n2 r : Int) (hi1 : inI64 n1 = true) (hi2 : inI64 n2 = true)
+    (h : isizeGcd n1 n2 = some r) : r = Int.gcd n1 n2 := by
+  have hi1 := (inI64_iff n1).1 hi1
+  have hi2 := (inI64_iff n2).1 hi2
+  unfold isizeGcd at h
+  split at h
+  · rename_i h0
+    split at h
+    · cases h
+    · cases h; rw [h0, Int.gcd_zero_left]
+  · split at h
+    · rename_i h0
+      split at h
+      · cases h
+      · cases h; rw [h0, Int.gcd_zero_right]
+    · split at h
+      · cases h
+      · rename_i hz1 hz2 hmin
+        have hmin1 : n1 ≠ -(2^63) := fun e => hmin (Or.inl e)
+        have hmin2 : n2 ≠ -(2^63) := fun e => hmin (Or.inr e)
+        obtain ⟨k, hs, ha, hb, hodd⟩ := commonTwos_spec 64 n1.natAbs n2.natAbs 0
+        have hodd := hodd (by omega) (by omega)
+        generalize commonTwos 64 n1.natAbs n2.natAbs 0 = t at *
+        obtain ⟨a, b, s⟩ := t
+        simp only at hs ha hb hodd h
+        cases h
+        have hk : 1 ≤ 2 ^ k := Nat.one_le_two_pow
+        have ha0 : a ≠ 0 := by intro e; rw [e] at ha; omega
+        have hb0 : b ≠ 0 := by intro e; rw [e] at hb; omega
+        have hale : a ≤ n1.natAbs := by rw [ha]; exact Nat.le_mul_of_pos_right _ hk
+        have hble : b ≤ n2.natAbs := by rw [hb]; exact Nat.le_mul_of_pos_right _ hk
+        have hso := stripTwos_odd 64 a ha0 (by omega)
+        have hsle := stripTwos_le 64 a
+        have hsg : Nat.gcd (stripTwos 64 a) b = Nat.gcd a b := by
+          rcases hodd with ho | ho
+          · rw [stripTwos_of_odd 64 a ho]
+          · rw [Nat.gcd_comm, stripTwos_gcd b ho, Nat.gcd_comm]
+        rw [gcdLoop_spec _ _ _ hso hb0 (by omega) (by omega) (by omega), hsg]
+        have : Int.gcd n1 n2 = Nat.gcd a b * 2 ^ k := by
+          show Nat.gcd n1.natAbs n2.natAbs = _
+          rw [ha, hb, Nat.gcd_mul_right]
+        rw [this, hs, Nat.zero_add]
+        simp
+
+/-! ### shifts -/
+
+theorem shlZ_eq (a : Int) (n : Nat) : shlZ a n = a * 2 ^ n := by
+  unfold shlZ; split
+  · rename_i h; rw [h, Int.zero_mul]
+  · rfl
+
+theorem shrZ_eq (a : Int) (n : Nat) : shrZ a n = a / 2 ^ n := by
+  unfold shrZ; rw [Int.shiftRight_eq_div_pow]; simp
+
+theorem checkedSignedShl_val (x s r : Int) (h : checkedSignedShl x s = some r) :
+    r = x * 2 ^ s.toNat := by
+  unfold checkedSignedShl at h
+  split at h
+  · rename_i h0; cases h; rw [h0]; simp
+  · split at h
+    · split at h
+      · cases h; exact shlZ_eq _ _
+      · cases h
+    · split at h
+      · cases h
+      · simp only at h
+        split at h
+        · cases h; rw [shlZ_eq, Int.neg_mul, Int.neg_neg]
+        · cases h
+
+theorem pow_le_pow_int (k n : Nat) (h : k ≤ n) : (2:Int) ^ k ≤ 2 ^ n := by
+  have := Nat.pow_le_pow_right (by decide : 2 > 0) h
+  exact_mod_cast this
+
+/-- shifting out every significant bit leaves the sign. -/
+theorem ediv_pow_signfill (a : Int) (k n : Nat) (hk : k ≤ n)
+    (hlo : -(2 ^ k) ≤ a) (hhi : a < 2 ^ k) : a / 2 ^ n = if a < 0 then -1 else 0 := by
+  have hm := pow_le_pow_int k n hk
+  generalize (2:Int) ^ n = m at *
+  generalize (2:Int) ^ k = c at *
+  have hpos : 0 < m := by omega
+  split
+  · have := (Int.ediv_emod_unique (a := a) (b := m) (r := a + m) (q := -1) hpos).2
+      ⟨by omega, by omega, by omega⟩
+    exact this.1
+  · exact Int.ediv_eq_zero_of_lt (by omega) (by omega)
+
+theorem inU32_iff (v : Int) : inU32 v = true ↔ (0 ≤ v ∧ v ≤ 2^32 - 1) := by
+  unfold inU32 U32_MAX; rw [Bool.and_eq_true, decide_eq_true_iff, decide_eq_true_iff]
+
+theorem inUsize_iff (v : Int) : inUsize v = true ↔ (0 ≤ v ∧ v ≤ USIZE_MAX) := by
+  unfold inUsize; rw [Bool.and_eq_true, decide_eq_true_iff, decide_eq_true_iff]
+
+/-- The "fits in memory" bound: `a` has fewer than `usize::MAX` significant bits, i.e.
+`-2^(2^64-1) ≤ a < 2^(2^64-1)`. Every value a 64-bit machine can hold satisfies it (the comment
+in `shr` of `arithmetic_ops.rs`: such a bignum would need 2 EiB). -/
+def FitsMem (a : Int) : Prop :=
+  -((2:Int) ^ USIZE_MAX.toNat) ≤ a ∧ a < (2:Int) ^ USIZE_MAX.toNat
+
+/-- side condition of a right shift of `a` by `c ≥ 0`: the count is not clamped, or the clamp is
+harmless because `a` fits in memory. -/
+def shrOk (a c : Int) : Prop := c ≤ USIZE_MAX ∨ FitsMem a
+/-- side condition of a left shift of `a` by `c ≥ 0`: the count is not clamped (otherwise the
+exact result `a * 2^c` cannot be represented at all, unless `a = 0`). -/
+def shlOk (a c : Int) : Prop := c ≤ USIZE_MAX ∨ a = 0
+
+theorem usize_toNat_ge : 55 ≤ USIZE_MAX.toNat := by
+  unfold USIZE_MAX; omega
+
+theorem fitsMem_of_inFix (a : Int) (h : inFix a = true) : FitsMem a := by
+  have h := (inFix_iff a).1 h
+  have := pow_le_pow_int 55 USIZE_MAX.toNat usize_toNat_ge
+  unfold FitsMem
+  generalize (2:Int) ^ USIZE_MAX.toNat = m at *
+  omega
+
+theorem shrNonneg_fix_val (a n : Int) (ha : inFix a = true) (hn : 0 ≤ n) :
+    (shrNonneg (.fix a) n).val = a / 2 ^ n.toNat := by
+  have ha := (inFix_iff a).1 ha
+  simp only [shrNonneg, ofI64_val, clampU32]
+  by_cases hu : inU32 n = true
+  · simp only [hu, if_true]
+    split
+    · exact shrZ_eq _ _
+    · rw [ediv_pow_signfill a 55 n.toNat (by omega) (by omega) (by omega)]
+  · simp only [hu]
+    have hu' : ¬ (0 ≤ n ∧ n ≤ 2^32 - 1) := fun h => hu ((inU32_iff n).2 h)
+    have : ¬ (U32_MAX < 64) := by unfold U32_MAX; omega
+    simp only [Bool.false_eq_true, if_false, this]
+    rw [ediv_pow_signfill a 55 n.toNat (by omega) (by omega) (by omega)]
+
+theorem shrNonneg_big_val (a n : Int) (hn : 0 ≤ n) (h : shrOk a n) :
+    (shrNonneg (.big a) n).val = a / 2 ^ n.toNat := by
+  simp only [shrNonneg, ofBig_val, clampUsize, shrZ_eq]
+  by_cases hu : inUsize n = true
+  · simp only [hu, if_true]
+  · simp only [hu]
+    have hu' : ¬ (0 ≤ n ∧ n ≤ USIZE_MAX) := fun h => hu ((inUsize_iff n).2 h)
+    rcases h with h | h
+    · exact absurd ⟨hn, h⟩ hu'
+    · have hle : USIZE_MAX.toNat ≤ n.toNat := Int.toNat_le_toNat (by omega)
+      simp only [Bool.false_eq_true, if_false]
+      rw [ediv_pow_signfill a _ _ (Nat.le_refl _) h.1 h.2, ediv_pow_signfill a _ _ hle h.1 h.2]
+
+theorem shrNonneg_val (a : Num) (n : Int) (ha : a.wf) (hn : 0 ≤ n) (h : shrOk a.val n) :
+    (shrNonneg a n).val = a.val / 2 ^ n.toNat := by
+  cases a with
+  | fix v => exact shrNonneg_fix_val v n ha hn
+  | big v => exact shrNonneg_big_val v n hn h
+
+theorem shrNonneg_wf (a : Num) (n : Int) : (shrNonneg a n).wf := by
+  cases a <;> simp only [shrNonneg]
+  · exact ofI64_wf _
+  · exact ofBig_wf _
+
+theorem shlNonneg_val_clamped (a : Num) (n : Int) :
+    (shlNonneg a n).val = a.val * 2 ^ (clampUsize n).toNat := by
+  cases a with
+  | fix v =>
+    simp only [shlNonneg, val_fix]
+    split
+    · rename_i r hr; rw [ofI64_val]; exact checkedSignedShl_val _ _ _ hr
+    · rw [ofBig_val, shlZ_eq]
+  | big v => simp only [shlNonneg, ofBig_val, val_big, shlZ_eq]
+
+theorem shlNonneg_val (a : Num) (n : Int) (hn : 0 ≤ n) (h : shlOk a.val n) :
+    (shlNonneg a n).val = a.val * 2 ^ n.toNat := by
+  rw [shlNonneg_val_clamped]
+  rcases h with h | h
+  · have : inUsize n = true := (inUsize_iff n).2 ⟨hn, h⟩
+    simp only [clampUsize, this, if_true]
+  · rw [h, Int.zero_mul, Int.zero_mul]
+
+theorem shlNonneg_wf (a : Num) (n : Int) : (shlNonneg a n).wf := by
+  cases a <;> simp only [shlNonneg]
+  · split
+    · exact ofI64_wf _
+    · exact ofBig_wf _
+  · exact ofBig_wf _
+
+/-- domain side conditions of the binary operations (only shifts have one). -/
+def binDomain : BinOp → Int → Int → Prop
+  | .shl, a, b => if b ≥ 0 then shlOk a b else shrOk a (-b)
+  | .shr, a, b => if b ≥ 0 then shrOk a b else shlOk a (-b)
+  | _, _, _ => True
+
+theorem shr_val (a b : Num) (ha : a.wf) (hd : binDomain .shr a.val b.val) :
+    (shr a b).val = if b.val ≥ 0 then a.val / 2 ^ b.val.toNat else a.val * 2 ^ (-b.val).toNat := by
+  simp only [binDomain] at hd
+  unfold shr Num.isNeg
+  by_cases hb : b.val < 0
+  · have h0 : ¬ (b.val ≥ 0) := by omega
+    simp only [hb, h0, decide_true, if_true, if_false, neg_val] at hd ⊢
+    exact shlNonneg_val a _ (by omega) hd
+  · have h0 : b.val ≥ 0 := by omega
+    simp only [hb, h0, decide_false, if_true, if_false, Bool.false_eq_true] at hd ⊢
+    exact shrNonneg_val a _ ha h0 hd
+
+theorem shl_val (a b : Num) (ha : a.wf) (hd : binDomain .shl a.val b.val) :
+    (shl a b).val = if b.val ≥ 0 then a.val * 2 ^ b.val.toNat else a.val / 2 ^ (-b.val).toNat := by
+  simp only [binDomain] at hd
+  unfold shl Num.isNeg
+  by_cases hb : b.val < 0
+  · have h0 : ¬ (b.val ≥ 0) := by omega
+    simp only [hb, h0, decide_true, if_true, if_false, neg_val] at hd ⊢
+    exact shrNonneg_val a _ ha (by omega) hd
+  · have h0 : b.val ≥ 0 := by omega
+    simp only [hb, h0, decide_false, if_true, if_false, Bool.false_eq_true] at hd ⊢
+    exact shlNonneg_val a _ h0 hd
+
+theorem shr_wf (a b : Num) : (shr a b).wf := by
+  unfold shr; split
+  · exact shlNonneg_wf _ _
+  · exact shrNonneg_wf _ _
+
+theorem shl_wf (a b : Num) : (shl a b).wf := by
+  unfold shl; split
+  · exact shrNonneg_wf _ _
+  · exact shlNonneg_wf _ _
+
+theorem lt_pow_bitlen (n : Nat) : n < 2 ^ leadingZeros.Nat.log2' n := by
+  unfold leadingZeros.Nat.log2'
+  split
+  · rename_i h; rw [h]; decide
+  · exact Nat.lt_log2_self
+
+theorem shl_fits_nat (n L t : Nat) (h : n < 2 ^ L) (hl : L + t ≤ 63) : n * 2 ^ t < 2 ^ 63 := by
+  have h1 : n * 2 ^ t < 2 ^ L * 2 ^ t := Nat.mul_lt_mul_of_pos_right h (Nat.two_pow_pos t)
+  rw [← Nat.pow_add] at h1
+  exact Nat.lt_of_lt_of_le h1 (Nat.pow_le_pow_right (by decide) hl)
+
+theorem shl_fits (x s : Int) (hx : 0 ≤ x) (hs0 : 0 ≤ s) (hs : s < (leadingZeros x : Int)) :
+    0 ≤ x * 2 ^ s.toNat ∧ x * 2 ^ s.toNat < 2 ^ 63 := by
+  have hb := lt_pow_bitlen x.toNat
+  unfold leadingZeros at hs
+  have := shl_fits_nat x.toNat _ s.toNat hb (by omega)
+  have e : x * 2 ^ s.toNat = ((x.toNat * 2 ^ s.toNat : Nat) : Int) := by
+    rw [Int.natCast_mul, Int.toNat_of_nonneg hx, Int.natCast_pow]; rfl
+  rw [e]
+  constructor
+  · exact Int.natCast_nonneg _
+  · exact_mod_cast this
+
+/-- fidelity of the exact-`Int` modelling of `x << shift`: whenever the guard
+`shift < leading_zeros` lets the i64 shift happen, the exact result is inside i64
+(so the wrapping machine shift and the exact one coincide). -/
+theorem checkedSignedShl_inI64 (x s r : Int) (hx : inI64 x = true) (hs0 : 0 ≤ s)
+    (h : checkedSignedShl x s = some r) : inI64 r = true := by
+  unfold checkedSignedShl at h
+  split at h
+  · cases h; exact hx
+  · split at h
+    · rename_i hx0
+      split at h
+      · rename_i hs; cases h
+        have := shl_fits x s hx0 hs0 hs
+        rw [shlZ_eq]; exact (inI64_iff _).2 (by omega)
+      · cases h
+    · split at h
+      · cases h
+      · simp only at h
+        split at h
+        · rename_i hs; cases h
+          have := shl_fits (-x) s (by omega) hs0 hs
+          rw [shlZ_eq]; exact (inI64_iff _).2 (by omega)
+        · cases h
+
+theorem checkedPowLoop_inI64 (fuel : Nat) (base acc : Int) (e : Nat) (r : Int)
+    (h : checkedPowLoop fuel base acc e = some r) : inI64 r = true := by
+  induction fuel generalizing base acc e with
+  | zero => cases h
+  | succ f ih =>
+    unfold checkedPowLoop at h
+    split at h
+    · split at h
+      · cases h
+      · rename_i hin
+        split at h
+        · cases h; simpa using hin
+        · split at h
+          · cases h
+          · exact ih _ _ _ h
+    · split at h
+      · cases h
+      · exact ih _ _ _ h
+
+/-! ### bitwise -/
+theorem band_val (a b : Num) : (band a b).val = land a.val b.val := by
+  cases a <;> cases b <;> simp only [band, ofI64_val, ofBig_val, val_fix, val_big]
+theorem bor_val (a b : Num) : (bor a b).val = lor a.val b.val := by
+  cases a <;> cases b <;> simp only [bor, ofI64_val, ofBig_val, val_fix, val_big]
+theorem bxor_val (a b : Num) : (bxor a b).val = lxor a.val b.val := by
+  cases a <;> cases b <;> simp only [bxor, ofI64_val, ofBig_val, val_fix, val_big]
+theorem band_wf (a b : Num) : (band a b).wf := by
+  cases a <;> cases b <;> first | exact ofI64_wf _ | exact ofBig_wf _
+theorem bor_wf (a b : Num) : (bor a b).wf := by
+  cases a <;> cases b <;> first | exact ofI64_wf _ | exact ofBig_wf _
+theorem bxor_wf (a b : Num) : (bxor a b).wf := by
+  cases a <;> cases b <;> first | exact ofI64_wf _ | exact ofBig_wf _
+theorem bnot_val (a : Num) : (bnot a).val = -a.val - 1 := by
+  cases a <;> rfl
+/-- `Fixnum(!n)` is built unchecked: it stays in range because the range is symmetric under `!`. -/
+theorem bnot_wf (a : Num) (h : a.wf) : (bnot a).wf := by
+  cases a with
+  | fix v =>
+    have h := (inFix_iff v).1 h
+    exact (inFix_iff _).2 (by omega)
+  | big v => trivial
+
+/-! ### min / max / sign -/
+theorem max_val (a b : Num) : (max a b).val = if a.val ≤ b.val then b.val else a.val := by
+  cases a <;> cases b <;> simp only [max, val_fix, val_big] <;> split <;>
+    simp only [val_fix, val_big] <;> omega
+theorem min_val (a b : Num) : (min a b).val = if a.val ≤ b.val then a.val else b.val := by
+  cases a <;> cases b <;> simp only [min, val_fix, val_big] <;> split <;>
+    simp only [val_fix, val_big] <;> omega
+theorem max_wf (a b : Num) (ha : a.wf) (hb : b.wf) : (max a b).wf := by
+  cases a <;> cases b <;> simp only [max] <;> split <;> first | exact ha | exact hb | trivial
+theorem min_wf (a b : Num) (ha : a.wf) (hb : b.wf) : (min a b).wf := by
+  cases a <;> cases b <;> simp only [min] <;> split <;> first | exact ha | exact hb | trivial
+theorem sign_val (a : Num) : (sign a).val = Int.sign a.val := by
+  unfold sign
+  split
+  · rename_i h; rw [Int.sign_eq_one_of_pos h]; rfl
+  · split
+    · rename_i h; rw [Int.sign_eq_neg_one_of_neg h]; rfl
+    · have : a.val = 0 := by omega
+      rw [this]; rfl
+theorem sign_wf (a : Num) : (sign a).wf := by
+  unfold sign; split
+  · decide
+  · split <;> decide
+
+/-! ### power -/
+
+theorem neg_one_pow (n : Nat) : (-1 : Int) ^ n = if n % 2 = 0 then 1 else -1 := by
+  have h := Nat.div_add_mod n 2
+  have e : (-1 : Int) ^ (2 * (n / 2)) = 1 := by
+    rw [Int.pow_mul]; show (1:Int) ^ (n/2) = 1; exact Int.one_pow
+  rcases Nat.mod_two_eq_zero_or_one n with h0 | h1
+  · rw [h0] at h; simp only [h0, if_true]; rw [← h, Nat.add_zero, e]
+  · rw [h1] at h; simp only [h1]; rw [← h, Int.pow_succ, e]; simp
+
+theorem powZ_eq (a : Int) (n : Nat) : powZ a n = a ^ n := by
+  unfold powZ
+  split
+  · rename_i h; rw [h, Int.one_pow]
+  · split
+    · rename_i h; rw [h]
+      split
+      · rename_i hn; rw [hn]; rfl
+      · rename_i hn; rw [Int.zero_pow hn]
+    · split
+      · rename_i h; rw [h, neg_one_pow]
+      · rfl
+
+theorem pow_two_mul_half_odd (b : Int) (e : Nat) (h : e % 2 = 1) :
+    b * (b * b) ^ (e / 2) = b ^ e := by
+  have := Nat.div_add_mod e 2
+  rw [h] at this
+  conv => rhs; rw [← this]
+  rw [Int.pow_succ, Int.pow_mul, (show b ^ 2 = b * b from by rw [Int.pow_succ, Int.pow_one]), Int.mul_comm]
+
+theorem pow_two_mul_half_even (b : Int) (e : Nat) (h : ¬ e % 2 = 1) :
+    (b * b) ^ (e / 2) = b ^ e := by
+  have := Nat.div_add_mod e 2
+  have h0 : e % 2 = 0 := by omega
+  rw [h0] at this
+  conv => rhs; rw [← this]
+  rw [Nat.add_zero, Int.pow_mul, (show b ^ 2 = b * b from by rw [Int.pow_succ, Int.pow_one])]
+
+theorem checkedPowLoop_val (fuel : Nat) (base acc : Int) (e : Nat) (r : Int)
+    (h : checkedPowLoop fuel base acc e = some r) : r = acc * base ^ e := by
+  induction fuel generalizing base acc e with
+  | zero => cases h
+  | succ f ih =>
+    unfold checkedPowLoop at h
+    split at h
+    · rename_i hodd
+      split at h
+      · cases h
+      · split at h
+        · rename_i h1; cases h; rw [h1, Int.pow_one]
+        · split at h
+          · cases h
+          · rw [ih _ _ _ h, ← pow_two_mul_half_odd base e hodd, Int.mul_assoc]
+    · rename_i heven
+      split at h
+      · cases h
+      · rw [ih _ _ _ h, pow_two_mul_half_even base e heven]
+
+theorem checkedPow_val (a : Int) (n : Nat) (r : Int) (h : checkedPow a n = some r) : r = a ^ n := by
+  unfold checkedPow at h
+  split at h
+  · rename_i h0; cases h; rw [h0, Int.pow_zero]
+  · rw [checkedPowLoop_val _ _ _ _ _ h, Int.one_mul]
+
+theorem binaryPowLoop_val (fuel : Nat) (n oddand : Int) (p : Nat) (hp : 1 ≤ p) (hf : p < 2 ^ fuel) :
+    binaryPowLoop fuel n oddand p = oddand * n ^ p := by
+  induction fuel generalizing n oddand p with
+  | zero => simp at hf; omega
+  | succ f ih =>
+    unfold binaryPowLoop
+    split
+    · rename_i h1
+      rw [ih _ _ _ (by omega) (by rw [Nat.pow_succ] at hf; omega)]
+      split
+      · rename_i hodd
+        rw [Int.mul_assoc, pow_two_mul_half_odd n p hodd]
+      · rename_i heven
+        rw [pow_two_mul_half_even n p heven]
+    · have : p = 1 := by omega
+      rw [this, Int.pow_one, Int.mul_comm]
+
+theorem binaryPow_eq (n p : Int) : binaryPow n p = n ^ p.natAbs := by
+  unfold binaryPow
+  simp only
+  split
+  · rename_i h; rw [h, Int.pow_zero]
+  · rename_i h
+    rw [binaryPowLoop_val _ _ _ _ (by omega) Nat.lt_log2_self, Int.one_mul]
+
+
+theorem isUnitOrZero_iff (a : Int) : isUnitOrZero a = true ↔ (a = 1 ∨ a = 0 ∨ a = -1) := by
+  unfold isUnitOrZero; simp [or_assoc]
+
+/-- the guard of every `int_pow` arm, against the specification's guard. -/
+theorem powGuard_iff (x n : Int) (h0 : ¬ (x = 0 ∧ n < 0)) :
+    ((!isUnitOrZero x && decide (n < 0)) = true) ↔ (n < 0 ∧ x ≠ 1 ∧ x ≠ -1) := by
+  rw [Bool.and_eq_true, Bool.not_eq_true', decide_eq_true_iff]
+  constructor
+  · rintro ⟨hu, hn⟩
+    have : ¬ (x = 1 ∨ x = 0 ∨ x = -1) := fun h => by
+      rw [(isUnitOrZero_iff x).2 h] at hu; cases hu
+    refine ⟨hn, fun h => this (Or.inl h), fun h => this (Or.inr (Or.inr h))⟩
+  · rintro ⟨hn, h1, h2⟩
+    refine ⟨?_, hn⟩
+    cases hu : isUnitOrZero x with
+    | false => rfl
+    | true =>
+      rcases (isUnitOrZero_iff x).1 hu with h | h | h
+      · exact absurd h h1
+      · exact absurd ⟨h, hn⟩ h0
+      · exact absurd h h2
+
+theorem powTail (x n : Int) (h0 : ¬ (x = 0 ∧ n < 0)) (t : R)
+    (ht : t.map Num.val = .ok (x ^ n.natAbs)) :
+    (if (!isUnitOrZero x && decide (n < 0)) = true then (Except.error (.typeFloat x) : R) else t).map
+        Num.val
+      = if n < 0 ∧ x ≠ 1 ∧ x ≠ -1 then .error (.typeFloat x) else .ok (powZ x n.natAbs) := by
+  have hg := powGuard_iff x n h0
+  by_cases hc : (n < 0 ∧ x ≠ 1 ∧ x ≠ -1)
+  · rw [if_pos (hg.2 hc), if_pos hc]; rfl
+  · rw [if_neg (fun h => hc (hg.1 h)), if_neg hc, ht, powZ_eq]
+
+theorem zeroNegGuard_iff (a b : Num) :
+    ((a.isZero && b.isNeg) = true) ↔ (a.val = 0 ∧ b.val < 0) := by
+  unfold Num.isZero Num.isNeg
+  rw [Bool.and_eq_true, decide_eq_true_iff, decide_eq_true_iff]
+
+theorem intPow_spec (a b : Num) : (intPow a b).map Num.val = specBin .pow a.val b.val := by
+  unfold intPow
+  simp only [specBin]
+  by_cases h0 : a.val = 0 ∧ b.val < 0
+  · rw [if_pos ((zeroNegGuard_iff _ _).2 h0), if_pos h0]; rfl
+  · rw [if_neg (fun h => h0 ((zeroNegGuard_iff _ _).1 h)), if_neg h0]
+    cases a <;> cases b <;> rename_i x n <;> refine powTail x n h0 _ ?_
+    · split
+      · rename_i r hr
+        split at hr
+        · rename_i hu
+          have hn : 0 ≤ n := by
+            unfold inU32 at hu; rw [Bool.and_eq_true, decide_eq_true_iff] at hu; exact hu.1
+          have := checkedPow_val _ _ _ hr
+          rw [map_ok, ofI64_val, this]
+          congr 2; omega
+        · cases hr
+      · rw [map_ok, ofBig_val, binaryPow_eq]
+    all_goals rw [map_ok, ofBig_val, binaryPow_eq]
+
+theorem intPow_wf (a b n : Num) (h : intPow a b = .ok n) : n.wf := by
+  unfold intPow at h
+  dsimp only at h
+  by_cases h0 : (a.isZero && b.isNeg) = true
+  · rw [if_pos h0] at h; cases h
+  · rw [if_neg h0] at h
+    cases a <;> cases b <;> dsimp only at h <;> split at h <;> try cases h
+    · split at h <;> cases h
+      · exact ofI64_wf _
+      · exact ofBig_wf _
+    all_goals exact ofBig_wf _
+
+/-! ### `zero_divisor` ⇔ divisor = 0; necessity of the left-shift side condition -/
+
+theorem zeroDivisor_iff (x : R) (b v : Int)
+    (h : x.map Num.val = if b = 0 then .error .zeroDivisor else .ok v) :
+    x = .error .zeroDivisor ↔ b = 0 := by
+  by_cases hb : b = 0
+  · rw [if_pos hb] at h
+    cases x with
+    | error e => rw [map_error] at h; cases h; exact ⟨fun _ => hb, fun _ => rfl⟩
+    | ok n => cases h
+  · rw [if_neg hb] at h
+    cases x with
+    | error e => cases h
+    | ok n => exact ⟨fun h' => (nomatch h'), fun h' => absurd h' hb⟩
+
+/-- the `shlOk` side condition is necessary: with a clamped count and a non-zero operand the
+model (like the code, if it had the memory) returns `a * 2^usize::MAX`, not `a * 2^n`. -/
+theorem shlNonneg_clamped_ne (a : Num) (n : Int) (hn : USIZE_MAX < n) (ha : a.val ≠ 0) :
+    (shlNonneg a n).val ≠ a.val * 2 ^ n.toNat := by
+  rw [shlNonneg_val_clamped]
+  have hu : ¬ (inUsize n = true) := fun h => by
+    have := ((inUsize_iff n).1 h).2; omega
+  simp only [clampUsize, hu, Bool.false_eq_true, if_false]
+  intro h
+  have h2 : (2:Int) ^ USIZE_MAX.toNat = 2 ^ n.toNat := Int.eq_of_mul_eq_mul_left ha h
+  have hlt : USIZE_MAX.toNat < n.toNat := (Int.toNat_lt_toNat (by unfold USIZE_MAX at hn; omega)).2 hn
+  have h3 : 2 ^ USIZE_MAX.toNat < 2 ^ n.toNat := Nat.pow_lt_pow_right (by decide) hlt
+  have h4 : ((2 ^ USIZE_MAX.toNat : Nat) : Int) = ((2 ^ n.toNat : Nat) : Int) := by
+    rw [Int.natCast_pow, Int.natCast_pow]; exact h2
+  have := Int.ofNat_inj.1 h4
+  omega
+
+/-! ### gcd on `Num` -/
+
+theorem inI64_of_inFix (v : Int) (h : inFix v = true) : inI64 v = true := by
+  have := (inFix_iff v).1 h
+  exact (inI64_iff v).2 (by omega)
+
+theorem gcd_val (a b : Num) (ha : a.wf) (hb : b.wf) : (gcd a b).val = Int.gcd a.val b.val := by
+  cases a <;> cases b <;> simp only [gcd, val_fix, val_big, ofBig_val]
+  · split
+    · rename_i r hr
+      rw [ofI64_val]
+      exact isizeGcd_spec _ _ _ (inI64_of_inFix _ ha) (inI64_of_inFix _ hb) hr
+    · rfl
+  · rw [Int.gcd_comm]
+
+theorem gcd_wf (a b : Num) : (gcd a b).wf := by
+  cases a <;> cases b <;> simp only [gcd]
+  · split
+    · exact ofI64_wf _
+    · exact ofBig_wf _
+  all_goals exact ofBig_wf _
+
+/-! ### whole expressions -/
+
+/-- The side condition of `C01_eval_exact`: every shift inside `e` either has a count that
+survives the clamp to `usize::MAX`, or the clamp is harmless (right shift of a value that fits in
+memory / left shift of 0). It is phrased over the *specification* values (`evalSpec`), so it
+does not mention the model. Everything a 64-bit machine can evaluate without running out of
+memory satisfies it. -/
+def InDomain : Expr → Prop
+  | .lit _ => True
+  | .un _ e => InDomain e
+  | .bin op l r => InDomain l ∧ InDomain r ∧
+      ∀ a b, evalSpec l = .ok a → evalSpec r = .ok b → binDomain op a b
+
+theorem applyUn_spec (op : UnOp) (a : Num) (ha : a.wf) :
+    (applyUn op a).map Num.val = specUn op a.val := by
+  cases op <;> simp only [applyUn, specUn, map_ok, neg_val, abs_val a ha, sign_val, bnot_val]
+
+theorem applyUn_wf (op : UnOp) (a n : Num) (ha : a.wf) (h : applyUn op a = .ok n) : n.wf := by
+  cases op <;> simp only [applyUn, Except.ok.injEq] at h <;> subst h
+  · exact neg_wf _
+  · exact abs_wf _
+  · exact sign_wf _
+  · exact bnot_wf _ ha
+  · exact ha
+
+theorem applyBin_spec (op : BinOp) (a b : Num) (ha : a.wf) (hb : b.wf)
+    (hd : binDomain op a.val b.val) :
+    (applyBin op a b).map Num.val = specBin op a.val b.val := by
+  cases op
+  case idiv => exact idiv_spec a b
+  case div => exact intFloorDiv_spec a b
+  case mod => exact modulus_spec a b
+  case rem => exact remainder_spec a b
+  case pow => exact intPow_spec a b
+  case shl => simp only [applyBin, specBin, map_ok, shl_val a b ha hd, shlZ_eq, shrZ_eq]
+  case shr => simp only [applyBin, specBin, map_ok, shr_val a b ha hd, shlZ_eq, shrZ_eq]
+  all_goals simp only [applyBin, specBin, map_ok, add_val, sub_val, mul_val, gcd_val a b ha hb,
+    min_val, max_val, band_val, bor_val, bxor_val]
+
+theorem applyBin_wf (op : BinOp) (a b n : Num) (ha : a.wf) (hb : b.wf)
+    (h : applyBin op a b = .ok n) : n.wf := by
+  cases op
+  case idiv => exact idiv_wf a b n h
+  case div => exact intFloorDiv_wf a b n h
+  case mod => exact modulus_wf a b n h
+  case rem => exact remainder_wf a b n h
+  case pow => exact intPow_wf a b n h
+  all_goals simp only [applyBin, Except.ok.injEq] at h <;> subst h
+  · exact add_wf _ _
+  · exact sub_wf _ _
+  · exact mul_wf _ _
+  · exact gcd_wf _ _
+  · exact min_wf _ _ ha hb
+  · exact max_wf _ _ ha hb
+  · exact shl_wf _ _
+  · exact shr_wf _ _
+  · exact band_wf _ _
+  · exact bor_wf _ _
+  · exact bxor_wf _ _
+
+theorem eval_wf (e : Expr) (n : Num) (h : eval e = .ok n) : n.wf := by
+  induction e generalizing n with
+  | lit v => simp only [eval, Except.ok.injEq] at h; subst h; exact ofI64_wf _
+  | un op e ih =>
+    simp only [eval] at h
+    split at h
+    · cases h
+    · rename_i a ha; exact applyUn_wf op a n (ih a ha) h
+  | bin op l r ihl ihr =>
+    simp only [eval] at h
+    split at h
+    · cases h
+    · rename_i a ha
+      split at h
+      · cases h
+      · rename_i b hb; exact applyBin_wf op a b n (ihl a ha) (ihr b hb) h
+
+theorem eval_exact (e : Expr) (hd : InDomain e) : (eval e).map Num.val = evalSpec e := by
+  induction e with
+  | lit v => simp only [eval, evalSpec, map_ok, lit, ofI64_val]
+  | un op e ih =>
+    have ih := ih hd
+    simp only [eval, evalSpec]
+    cases he : eval e with
+    | error x => rw [he] at ih; rw [← ih]; rfl
+    | ok a =>
+      rw [he] at ih; rw [← ih]
+      exact applyUn_spec op a (eval_wf e a he)
+  | bin op l r ihl ihr =>
+    obtain ⟨hl, hr, hop⟩ := hd
+    have ihl := ihl hl
+    have ihr := ihr hr
+    simp only [eval, evalSpec]
+    cases hel : eval l with
+    | error x => rw [hel] at ihl; rw [← ihl]; rfl
+    | ok a =>
+      rw [hel] at ihl; rw [← ihl]
+      cases her : eval r with
+      | error x => rw [her] at ihr; rw [← ihr]; rfl
+      | ok b =>
+        rw [her] at ihr; rw [← ihr]
+        exact applyBin_spec op a b (eval_wf l a hel) (eval_wf r b her)
+          (hop a.val b.val (by rw [← ihl]; rfl) (by rw [← ihr]; rfl))
 
 end Scryer.Arith
